@@ -344,8 +344,10 @@ class CumReductionBlelloch(ArrayExpr):
         # Phase 1: Compute prefix values (sum/product of each block)
         batches_name = self._name + "-batch"
         for key in product(*map(range, x.numblocks)):
+            # block totals in the requested (possibly wider) dtype, like the
+            # scan itself -- not in the input's
             dsk[(batches_name,) + key] = (
-                partial(preop, axis=axis, keepdims=True),
+                partial(preop, axis=axis, keepdims=True, dtype=dtype),
                 (x.name,) + key,
             )
 
